@@ -47,6 +47,7 @@ Proof.
     as [[[[res st1] t1] s1] tr1]. subst st1.
   destruct res as [[[r sd]|]|e r]; try reflexivity.
   destruct (_ && _); [reflexivity|]. destruct (algo_run cfg (seed_of sd) level) as [key e].
+  destruct (algo_fails cfg); [reflexivity|].
   pose proof (single_request_timing cfg st (sa_make true level key) (sa_interpret true level) t1 s1) as H2.
   destruct (single_request cfg st (sa_make true level key) (sa_interpret true level) no_post t1 s1)
     as [[[[res2 st2] t2] s2] tr2]. subst st2. reflexivity.
@@ -279,6 +280,7 @@ Lemma unlock_structure cfg st level params now s :
   | COk (Some (r, sd)) =>
     let seed := seed_of sd in
     if negb (Nat.eqb (List.length seed) 0) && all_zero seed then tr = tr1 /\ res = res1
+    else if algo_fails cfg then tr = tr1 ++ [snd (algo_run cfg seed level)] /\ res = CErr ERuntime None
     else
       let '(res2, _, _, _, tr2) := send_key cfg st1 level (fst (algo_run cfg seed level)) t1 s1 in
       tr = tr1 ++ snd (algo_run cfg seed level) :: tr2 /\ res = res2
@@ -290,6 +292,7 @@ Proof.
   destruct res1 as [[[r sd]|]|e r]; auto.
   destruct (negb (Nat.eqb (List.length (seed_of sd)) 0) && all_zero (seed_of sd)); auto.
   destruct (algo_run cfg (seed_of sd) level) as [key e]. cbn [fst snd].
+  destruct (algo_fails cfg); [auto|].
   destruct (send_key cfg st1 level key t1 s1) as [[[[res2 st2] t2] s2] tr2]. auto.
 Qed.
 
@@ -301,7 +304,7 @@ Proof. intros H. unfold unlock_security_access. replace (algo cfg <=? 0) with tr
 Lemma algo_run_event cfg seed level :
   exists lvl prm, snd (algo_run cfg seed level) = EvALGO seed lvl prm /\ (lvl = level \/ lvl = -1).
 Proof.
-  unfold algo_run. destruct ((algo cfg =? 1) || (algo cfg =? 6)); [|destruct ((algo cfg =? 2) || (algo cfg =? 5))]; cbn [snd]; eauto.
+  unfold algo_run. destruct ((algo cfg =? 1) || (algo cfg =? 6)); [|destruct ((algo cfg =? 2) || (algo cfg =? 5) || (algo cfg =? 7))]; cbn [snd]; eauto.
 Qed.
 
 Definition sa_sid : Z := 39.
